@@ -7,12 +7,18 @@ import (
 	"sort"
 	"strings"
 	"sync"
+	"time"
 
 	"verif/core"
 )
 
 // BuildInputs assembles the input families (a)..(e) of DESIGN §5 C05.
 func BuildInputs(ctx *core.Ctx, paths []ModelPath) ([]Input, map[string]int, error) {
+	return buildInputs(ctx, paths, true)
+}
+
+// buildInputs: withRest = false gives only the model-derived family (a).
+func buildInputs(ctx *core.Ctx, paths []ModelPath, withRest bool) ([]Input, map[string]int, error) {
 	r := rand.New(rand.NewSource(ctx.Seed*2654435761 + 17))
 	var in []Input
 	count := map[string]int{}
@@ -28,8 +34,11 @@ func BuildInputs(ctx *core.Ctx, paths []ModelPath) ([]Input, map[string]int, err
 	}
 	// (a) the SoyLexer state graph
 	add(ModelInputs(paths))
+	if !withRest {
+		return in, count, nil
+	}
 	// (b) tag sequences
-	add(TagSequences(ctx.Thorough(), ctx.Seed, ctx.Pick(0, 150000)))
+	add(TagSequences(ctx.Thorough(), ctx.Seed, ctx.Pick(40000, 150000)))
 	add(TagBodies())
 	// (c) prefixes and (d) token mutations of the corpus and of generated files
 	files, err := CorpusFiles()
@@ -38,7 +47,7 @@ func BuildInputs(ctx *core.Ctx, paths []ModelPath) ([]Input, map[string]int, err
 	}
 	for _, name := range sortedKeys(files) {
 		text := files[name]
-		add(Prefixes("prefix/"+name, text, ctx.Pick(6000, 0), r))
+		add(Prefixes("prefix/"+name, text, ctx.Pick(4000, 0), r))
 		add(TokenMutations("mutation/"+name, text, ctx.Pick(1200, 0), r))
 	}
 	for i, v := range GeneratedFiles(ctx.Pick(60, 200), ctx.Seed) {
@@ -176,138 +185,202 @@ func Summarize(inputs []Input, results []Result) *Summary {
 func shortest(idx []int, inputs []Input, n int) []int {
 	c := append([]int(nil), idx...)
 	sort.SliceStable(c, func(a, b int) bool { return len(inputs[c[a]].Text) < len(inputs[c[b]].Text) })
-	if len(c) > n {
-		c = c[:n]
+	var out []int
+	seen := map[string]bool{}
+	for _, i := range c {
+		k := inputs[i].Entry + "|" + string(inputs[i].Text)
+		if !seen[k] {
+			seen[k] = true
+			out = append(out, i)
+		}
+		if len(out) == n {
+			break
+		}
 	}
-	return c
+	return out
 }
 
-// Confirm takes the verdicts on suspects, panics and crashes: the first
-// representatives of every signature are re-run in fresh processes (probe);
-// a hang is declared when a tiny input exceeds the 10 s watchdog twice with
-// the same frame in both goroutine dumps. It returns the number of inputs
-// whose suspicion was not reproduced.
-func Confirm(ctx *core.Ctx, inputs []Input, results []Result, s *Summary) {
+// Confirmer takes the verdicts on suspects, panics and crashes: the shortest
+// representatives of every signature are re-run in fresh processes (probe); a
+// hang is declared when a tiny input exceeds the 10 s watchdog twice with the
+// same frame in both goroutine dumps.
+type Confirmer struct {
+	ctx       *core.Ctx
+	mu        sync.Mutex
+	n         int
+	done      map[string]bool
+	confirmed map[string]int
+	unrepro   map[string]int
+	tally     map[string]interface{}
+}
+
+// NewConfirmer creates the confirmer of a run.
+func NewConfirmer(ctx *core.Ctx) *Confirmer {
+	return &Confirmer{ctx: ctx, done: map[string]bool{}, confirmed: map[string]int{}, unrepro: map[string]int{}, tally: map[string]interface{}{}}
+}
+
+type confirmJob struct {
+	feature, family, kind string
+	idx, all              []int
+}
+
+// Process confirms the signatures of s that were not processed before. Inputs
+// whose suspicion is not reproduced by the probes are re-run in the slow lane
+// (results is updated in place).
+func (c *Confirmer) Process(inputs []Input, results []Result, s *Summary) {
+	ctx := c.ctx
 	dir := filepath.Join(core.VerifDir, "out", "tlc")
-	var wg sync.WaitGroup
-	var mu sync.Mutex
-	n := 0
-	confirmed := map[string]int{}
-	unrepro := map[string]int{}
-	type job struct {
-		feature string
-		family  string
-		idx     []int
-		total   int
-		kind    string
-	}
-	var jobs []job
-	for f, idx := range s.Suspects {
-		fam := "termination"
-		if strings.HasPrefix(f, "steps:") {
-			fam = "proportional"
+	var jobs []confirmJob
+	add := func(m map[string][]int, fam, kind string) {
+		for f, idx := range m {
+			c.mu.Lock()
+			seen := c.done[f]
+			c.done[f] = true
+			if t, ok := c.tally[f].(map[string]int); ok {
+				t["inputs"] += len(idx)
+			}
+			c.mu.Unlock()
+			if seen {
+				continue
+			}
+			fm := fam
+			if strings.HasPrefix(f, "steps:") {
+				fm = "proportional"
+			}
+			jobs = append(jobs, confirmJob{f, fm, kind, shortest(idx, inputs, 2), idx})
 		}
-		jobs = append(jobs, job{f, fam, shortest(idx, inputs, 2), len(idx), "hang"})
 	}
-	for f, idx := range s.Panics {
-		jobs = append(jobs, job{f, "no-panic", shortest(idx, inputs, 2), len(idx), "panic"})
-	}
-	for f, idx := range s.Crashes {
-		jobs = append(jobs, job{f, "no-panic", shortest(idx, inputs, 2), len(idx), "crash"})
-	}
+	add(s.Suspects, "termination", "hang")
+	add(s.Panics, "no-panic", "panic")
+	add(s.Crashes, "no-panic", "crash")
 	sort.Slice(jobs, func(a, b int) bool { return jobs[a].feature < jobs[b].feature })
+	var wg sync.WaitGroup
 	for _, j := range jobs {
 		for _, i := range j.idx {
 			wg.Add(1)
-			mu.Lock()
-			n += 2
-			k := n
-			mu.Unlock()
-			go func(j job, i, k int) {
+			c.mu.Lock()
+			c.n += 2
+			k := c.n
+			c.mu.Unlock()
+			go func(j confirmJob, i, k int) {
 				defer wg.Done()
-				in := &inputs[i]
-				var p1, p2 *ProbeReport
-				var e1, e2 error
-				var w2 sync.WaitGroup
-				w2.Add(2)
-				go func() { defer w2.Done(); p1, e1 = Probe(in, dir, k) }()
-				go func() { defer w2.Done(); p2, e2 = Probe(in, dir, k+1) }()
-				w2.Wait()
-				if e1 != nil || e2 != nil {
-					ctx.ToolError("probe of a suspect input failed: %v %v", e1, e2)
-					return
-				}
-				sig := core.Sig{Family: j.family, Feature: j.feature}
-				rp := replayOf(in, "parse returns a tree or an error; no panic; no hang", results[i])
-				rp.Probe1, rp.Probe2, rp.Similar = p1, p2, j.total
-				switch j.kind {
-				case "hang":
-					hung := !p1.Returned && !p2.Returned && p1.Frame1 == p1.Frame2 && p2.Frame1 == p2.Frame2 && p1.Frame1 == p2.Frame1
-					switch {
-					case hung && len(in.Text) < 4096:
-						mu.Lock()
-						confirmed[j.feature]++
-						mu.Unlock()
-						ctx.Violation(sig, fmt.Sprintf("%s(%q) did not return within 10 s in two fresh processes; both goroutine dumps (1 s apart) show %s in %s; %d inputs of this run have this signature",
-							entryName(in), clip(string(in.Text), 80), p1.Kind, p1.Frame1, j.total), rp)
-					case hung:
-						mu.Lock()
-						unrepro[j.feature+" (input >= 4 KB: not judged)"]++
-						mu.Unlock()
-					case p1.Returned && p2.Returned && p1.Outcome == "crash":
-						ctx.Violation(core.Sig{Family: "no-panic", Feature: "crash-in-scanner-goroutine:" + PanicKind(p1.Panic) + "@" + p1.Frame1},
-							fmt.Sprintf("%s(%q) kills the process: %s", entryName(in), clip(string(in.Text), 80), p1.Panic), rp)
-					case p1.Returned && p2.Returned && strings.HasPrefix(j.feature, "steps:"):
-						mu.Lock()
-						confirmed[j.feature]++
-						mu.Unlock()
-						ctx.Violation(sig, fmt.Sprintf("%s(%q): more than %d*len+%d state-function steps for %d bytes (not proportional to the input)",
-							entryName(in), clip(string(in.Text), 80), StepC, StepD, len(in.Text)), rp)
-					default:
-						mu.Lock()
-						unrepro[j.feature]++
-						mu.Unlock()
-					}
-				case "panic":
-					if p1.Outcome == "panic" && p2.Outcome == "panic" {
-						mu.Lock()
-						confirmed[j.feature]++
-						mu.Unlock()
-						ctx.Violation(sig, fmt.Sprintf("%s(%q) panics instead of returning an error: %s", entryName(in), clip(string(in.Text), 80), p1.Panic), rp)
-					} else {
-						mu.Lock()
-						unrepro[j.feature]++
-						mu.Unlock()
-					}
-				case "crash":
-					if p1.Outcome == "crash" && p2.Outcome == "crash" {
-						mu.Lock()
-						confirmed[j.feature]++
-						mu.Unlock()
-						ctx.Violation(sig, fmt.Sprintf("%s(%q) panics in the scanner goroutine and kills the process (no recover possible): %s in %s",
-							entryName(in), clip(string(in.Text), 80), p1.Panic, p1.Frame1), rp)
-					} else {
-						mu.Lock()
-						unrepro[j.feature]++
-						mu.Unlock()
-					}
-				}
+				c.confirmOne(j, &inputs[i], &results[i], dir, k)
 			}(j, i, k)
 		}
 	}
 	wg.Wait()
-	tally := map[string]interface{}{}
+	// slow lane for signatures that no probe reproduced
+	var again []int
 	for _, j := range jobs {
-		tally[j.feature] = map[string]int{"inputs": j.total, "confirmed_by_probe": confirmed[j.feature]}
+		c.mu.Lock()
+		ok := c.confirmed[j.feature] > 0
+		c.tally[j.feature] = map[string]int{"inputs": len(j.all), "confirmed_by_probe": c.confirmed[j.feature]}
+		c.mu.Unlock()
+		if !ok && j.kind == "hang" {
+			again = append(again, j.all...)
+		}
 	}
-	ctx.Extra["signatures"] = tally
-	if len(unrepro) > 0 {
-		ctx.Extra["suspicions_not_reproduced"] = unrepro
-		for f, c := range unrepro {
-			if confirmed[strings.TrimSuffix(f, " (input >= 4 KB: not judged)")] == 0 {
-				ctx.ToolError("a suspected hang/panic did not reproduce in fresh processes (%s, %d inputs): timeouts that do not reproduce are tool trouble, not violations", f, c)
+	if len(again) > 0 {
+		sort.Ints(again)
+		sub := make([]Input, len(again))
+		for k, i := range again {
+			sub[k] = inputs[i]
+		}
+		slow := NewPool(8)
+		slow.Slow = true
+		slow.SeqLen = 50
+		rs := slow.Run(sub)
+		still := 0
+		for k, i := range again {
+			rs[k].ID = i
+			inputs[i].ID = i
+			if rs[k].Outcome == "tree" || rs[k].Outcome == "error" {
+				results[i] = rs[k]
+			} else {
+				still++
 			}
 		}
+		ctx.Extra["slow_lane_reruns"] = len(again)
+		if still > 0 {
+			ctx.ToolError("%d suspected hangs were not reproduced by the 10 s probes but did not finish in the slow lane either: tool trouble, not a violation", still)
+		}
+	}
+}
+
+func (c *Confirmer) confirmOne(j confirmJob, in *Input, r *Result, dir string, k int) {
+	ctx := c.ctx
+	var p1, p2 *ProbeReport
+	var e1, e2 error
+	var w2 sync.WaitGroup
+	w2.Add(2)
+	go func() { defer w2.Done(); p1, e1 = Probe(in, dir, k) }()
+	go func() { defer w2.Done(); p2, e2 = Probe(in, dir, k+1) }()
+	w2.Wait()
+	if e1 != nil || e2 != nil {
+		ctx.ToolError("probe of a suspect input failed: %v %v", e1, e2)
+		return
+	}
+	ok := func() {
+		c.mu.Lock()
+		c.confirmed[j.feature]++
+		c.mu.Unlock()
+	}
+	miss := func(why string) {
+		c.mu.Lock()
+		c.unrepro[j.feature+why]++
+		c.mu.Unlock()
+	}
+	sig := core.Sig{Family: j.family, Feature: j.feature}
+	rp := replayOf(in, "parse returns a tree or an error; no panic; no hang", *r)
+	rp.Probe1, rp.Probe2, rp.Similar = p1, p2, len(j.all)
+	what := fmt.Sprintf("%s(%q)", entryName(in), clip(string(in.Text), 80))
+	switch j.kind {
+	case "hang":
+		hung := !p1.Returned && !p2.Returned && p1.Frame1 == p1.Frame2 && p2.Frame1 == p2.Frame2 && p1.Frame1 == p2.Frame1
+		switch {
+		case hung && len(in.Text) < 4096:
+			ok()
+			ctx.Violation(sig, fmt.Sprintf("%s did not return within 10 s in two fresh processes; both goroutine dumps (1 s apart) show the %s in %s; %d inputs of this run have this signature",
+				what, p1.Kind, p1.Frame1, len(j.all)), rp)
+		case hung:
+			ok() // not judged (>= 4 KB), but reproduced: no slow lane
+			miss(" (input >= 4 KB: not judged)")
+		case p1.Returned && p2.Returned && p1.Outcome == "crash" && p2.Outcome == "crash":
+			ok()
+			ctx.Violation(core.Sig{Family: "no-panic", Feature: "crash-in-scanner-goroutine:" + PanicKind(p1.Panic) + "@" + p1.Frame1},
+				fmt.Sprintf("%s kills the process: %s", what, p1.Panic), rp)
+		case p1.Returned && p2.Returned && strings.HasPrefix(j.feature, "steps:"):
+			ok()
+			ctx.Violation(sig, fmt.Sprintf("%s: more than %d*len+%d state-function steps for %d bytes (not proportional to the input)",
+				what, StepC, StepD, len(in.Text)), rp)
+		default:
+			miss("")
+		}
+	case "panic":
+		if p1.Outcome == "panic" && p2.Outcome == "panic" {
+			ok()
+			ctx.Violation(sig, fmt.Sprintf("%s panics instead of returning an error: %s", what, p1.Panic), rp)
+		} else {
+			miss("")
+			ctx.ToolError("a panic seen in a worker did not reproduce in fresh processes (%s)", j.feature)
+		}
+	case "crash":
+		if p1.Outcome == "crash" && p2.Outcome == "crash" {
+			ok()
+			ctx.Violation(sig, fmt.Sprintf("%s panics in the scanner goroutine and kills the process (no recover possible): %s in %s",
+				what, p1.Panic, p1.Frame1), rp)
+		} else {
+			miss("")
+			ctx.ToolError("a worker crash did not reproduce in fresh processes (%s): stderr %s", j.feature, clip(r.Stack, 300))
+		}
+	}
+}
+
+// Finish writes the tallies to the evidence.
+func (c *Confirmer) Finish() {
+	c.ctx.Extra["signatures"] = c.tally
+	if len(c.unrepro) > 0 {
+		c.ctx.Extra["suspicions_not_reproduced_by_probe"] = c.unrepro
 	}
 }
 
@@ -386,7 +459,7 @@ func SampleTraces(results []Result, n int, seed int64) (events []string, idx []i
 // of all small "interesting" families.
 func MarkTraces(inputs []Input, every int) {
 	for i := range inputs {
-		if i%every == 0 || strings.HasPrefix(inputs[i].Family, "replay/") {
+		if (i%every == 0 || strings.HasPrefix(inputs[i].Family, "replay/")) && len(inputs[i].Text) <= 200 {
 			inputs[i].Trace = true
 		}
 	}
@@ -403,21 +476,56 @@ func Run(ctx *core.Ctx) {
 		RunReplay(ctx)
 		return
 	}
+	t0 := time.Now()
+	phase := map[string]float64{}
 	models := StartModels(ctx, "lexer,parse-c05")
-	paths := models.WaitPaths()
-	if len(paths) == 0 {
-		ctx.ToolError("SoyLexer path enumeration produced no paths")
-	}
-	inputs, counts, err := BuildInputs(ctx, paths)
+	// batch 1: the families that do not depend on TLC output run while TLC works
+	inputs, counts, err := BuildInputs(ctx, nil)
 	if err != nil {
 		ctx.ToolError("%v", err)
 		return
 	}
-	inputs = append(inputs, models.ReplayInputs()...)
-	MarkTraces(inputs, ctx.Pick(40, 25))
+	MarkTraces(inputs, ctx.Pick(25, 20))
 	pool := NewPool(16)
-	pool.SeqLen = 500
+	pool.SeqLen = 200
 	results := pool.Run(inputs)
+	phase["batch1_s"] = time.Since(t0).Seconds()
+	models.StartRest()
+	conf := NewConfirmer(ctx)
+	var cw sync.WaitGroup
+	cw.Add(1)
+	go func() {
+		defer cw.Done()
+		conf.Process(inputs, results, Summarize(inputs, results))
+	}()
+	// batch 2: family (a) from the SoyLexer state graph and the replays of the
+	// deviation counterexamples
+	paths := models.WaitPaths()
+	if len(paths) == 0 {
+		ctx.ToolError("SoyLexer path enumeration produced no paths")
+	}
+	in2, c2, _ := buildInputs(ctx, paths, false)
+	for k, v := range c2 {
+		counts[k] += v
+	}
+	rep := models.ReplayInputs()
+	counts["replay"] = len(rep)
+	in2 = append(in2, rep...)
+	MarkTraces(in2, 7)
+	t1 := time.Now()
+	res2 := pool.Run(in2)
+	phase["batch2_s"] = time.Since(t1).Seconds()
+	cw.Wait()
+	phase["confirm1_done_s"] = time.Since(t0).Seconds()
+	t2 := time.Now()
+	conf.Process(in2, res2, Summarize(in2, res2))
+	phase["confirm2_s"] = time.Since(t2).Seconds()
+	conf.Finish()
+	inputs = append(inputs, in2...)
+	results = append(results, res2...)
+	for i := range results {
+		results[i].ID = i
+	}
 	s := Summarize(inputs, results)
 	ctx.AddEvals(int64(s.Returned))
 	seen := map[string]struct{}{}
@@ -436,6 +544,18 @@ func Run(ctx *core.Ctx) {
 				"outcome": results[i].Outcome, "steps": results[i].Steps, "err": clip(results[i].Err, 120)})
 		}
 	}
+	us := map[string]int64{}
+	for i := range inputs {
+		g := inputs[i].Family
+		if k := strings.Index(g, "/"); k >= 0 {
+			g = g[:k]
+		}
+		us[g+"_ms"] += results[i].Micros / 1000
+		if results[i].Outcome == "suspect" {
+			us["suspects_"+results[i].Spin+"_ms"] += results[i].Micros / 1000
+		}
+	}
+	ctx.Extra["worker_ms_per_family"] = us
 	ctx.Extra["inputs_per_family"] = counts
 	ctx.Extra["outcomes"] = map[string]int{"tree": s.Tree, "error": s.Error, "suspect_hang": countIdx(s.Suspects), "panic": countIdx(s.Panics),
 		"crash": countIdx(s.Crashes), "lost": len(s.Lost)}
@@ -446,7 +566,7 @@ func Run(ctx *core.Ctx) {
 	if len(s.Lost) > 0 {
 		ctx.ToolError("%d inputs were lost by their worker (first: %s)", len(s.Lost), results[s.Lost[0]].Err)
 	}
-	Confirm(ctx, inputs, results, s)
+	t3 := time.Now()
 	// M3: protocol validation of recorded traces by TLC
 	evs, idx := SampleTraces(results, ctx.Pick(4000, 40000), ctx.Seed)
 	for lo := 0; lo < len(evs); lo += 10000 {
@@ -470,8 +590,10 @@ func Run(ctx *core.Ctx) {
 			ctx.Extra["protocol_trace_rejections"] = rej
 		}
 	}
+	phase["trace_validation_s"] = time.Since(t3).Seconds()
 	Coverage(ctx, modelEdges(models), pool.Edges())
 	models.Finish()
+	ctx.Extra["phase_seconds"] = phase
 }
 
 func modelEdges(m *Models) map[string]struct{} {
@@ -508,5 +630,7 @@ func RunReplay(ctx *core.Ctx) {
 	ctx.AddEvals(int64(s.Returned))
 	ctx.Sample(results[0])
 	fmt.Printf("replay: outcome=%s spin=%s frame=%s err=%s\n", results[0].Outcome, results[0].Spin, results[0].Frame, clip(results[0].Err, 200))
-	Confirm(ctx, inputs, results, s)
+	conf := NewConfirmer(ctx)
+	conf.Process(inputs, results, s)
+	conf.Finish()
 }
